@@ -164,7 +164,13 @@ func helloExts(ch []byte) ([]rawExt_c15, bool) {
 
 var echIDs = []string{"Golang-0", "Chrome-120", "Chrome-120_PQ", "Chrome-131", "Chrome-133", "Firefox-120"}
 
-var echSrvModes = []string{"accept", "accept", "accept2", "hrr", "hrr", "rejkey", "rejkey", "rejnone", "rejnoretry", "rejhrr"}
+var echSrvModes = []string{"accept", "accept", "accept2", "hrr", "hrr", "rejkey", "rejretry2", "rejnone", "rejnoretry", "rejhrr"}
+
+// layouts of the client's ECHConfigList: P = the config the client must pick; before it only
+// entries the selection logic has to skip (V unknown version, S no supported cipher suite, K unsupported
+// KEM, M mandatory extension, N invalid public name); after it anything, incl. G = another valid
+// config (other key), as in a key-rotation list.
+var echListLayouts = []string{"P", "P", "V+M+P", "P+G", "P+G", "V+P+G", "S+P+G", "K+P+V", "N+M+P", "P+S", "S+P", "P+G+G", "M+P+G+V", "P+V"}
 
 func echNames(r *Rng) (pub, sn string) {
 	lab := func(n int) string {
@@ -195,8 +201,8 @@ func genEchHS(r *Rng, i int, tier string) string {
 	pub, sn := echNames(r)
 	suites := Pick(r, []string{"1:1", "1:2", "1:3", "1:1,1:3", "2:1,1:3", "1:9,1:2", "1:3,1:1"})
 	mnl := Pick(r, []int{0, 1, 8, 16, 32, 64, 128, 255, r.Intn(256)})
-	return fmt.Sprintf("id=%s srv=%s cid=%d suites=%s mnl=%d pub=%s sn=%s junk=%d alpn=%d ks=%d",
-		id, srv, r.Intn(256), suites, mnl, pub, sn, r.Intn(2), r.Intn(2), r.U64()>>1)
+	return fmt.Sprintf("id=%s srv=%s cid=%d suites=%s mnl=%d pub=%s sn=%s cl=%s alpn=%d ks=%d",
+		id, srv, r.Intn(256), suites, mnl, pub, sn, Pick(r, echListLayouts), r.Intn(2), r.U64()>>1)
 }
 
 type echSetup struct {
@@ -212,21 +218,38 @@ type echSetup struct {
 }
 
 // mkEchSetup builds the client's config list and the server configuration for a server mode.
-func mkEchSetup(srv string, cid uint8, suites [][2]int, mnl uint8, pub, sn string, junk bool, ks uint64) *echSetup {
+func mkEchSetup(srv string, cid uint8, suites [][2]int, mnl uint8, pub, sn string, layout string, ks uint64) *echSetup {
 	es := &echSetup{}
 	es.cliKey = echKeyFromSeed(ks)
-	es.cliCfg = mkECHConfig(0xfe0d, cid, 0x0020, es.cliKey.PublicKey().Bytes(), suites, mnl, pub, nil)
-	if junk {
-		// an unknown-version config first (must be skipped), and one with a mandatory extension
-		junk1 := mkECHConfig(0xfe0a, cid, 0x0020, es.cliKey.PublicKey().Bytes(), suites, mnl, pub, nil)
-		junk2 := mkECHConfig(0xfe0d, cid^1, 0x0020, es.cliKey.PublicKey().Bytes(), suites, mnl, pub, []byte{0x80, 0x01, 0, 0})
-		es.cliList = echList(junk1, junk2, es.cliCfg)
-	} else {
-		es.cliList = echList(es.cliCfg)
+	pk := es.cliKey.PublicKey().Bytes()
+	es.cliCfg = mkECHConfig(0xfe0d, cid, 0x0020, pk, suites, mnl, pub, nil)
+	var entries [][]byte
+	for j, kind := range strings.Split(layout, "+") {
+		switch kind {
+		case "P":
+			entries = append(entries, es.cliCfg)
+		case "V": // unknown version: skipped while parsing
+			entries = append(entries, mkECHConfig(0xfe0a, cid, 0x0020, pk, suites, mnl, pub, nil))
+		case "S": // no supported cipher suite
+			entries = append(entries, mkECHConfig(0xfe0d, cid^2, 0x0020, pk, [][2]int{{2, 1}, {1, 9}}, mnl, pub, nil))
+		case "K": // unsupported KEM
+			entries = append(entries, mkECHConfig(0xfe0d, cid^3, 0x0010, make([]byte, 65), suites, mnl, pub, nil))
+		case "M": // mandatory extension
+			entries = append(entries, mkECHConfig(0xfe0d, cid^1, 0x0020, pk, suites, mnl, pub, []byte{0x80, 0x01, 0, 0}))
+		case "N": // public name that is not a valid DNS name
+			entries = append(entries, mkECHConfig(0xfe0d, cid^4, 0x0020, pk, suites, mnl, "localhost", nil))
+		case "G": // another valid config (key rotation)
+			gk := echKeyFromSeed(ks ^ uint64(0x1111*(j+1)))
+			entries = append(entries, mkECHConfig(0xfe0d, cid+uint8(11*(j+1)), 0x0020, gk.PublicKey().Bytes(), [][2]int{{1, 1}, {1, 3}}, 24, "next-"+pub, nil))
+		}
 	}
+	es.cliList = echList(entries...)
 	otherKey := echKeyFromSeed(ks ^ 0xabcdef)
 	otherCfg := mkECHConfig(0xfe0d, cid+7, 0x0020, otherKey.PublicKey().Bytes(), [][2]int{{1, 1}}, 40, "retry-"+pub, nil)
 	other := tls.EncryptedClientHelloKey{Config: otherCfg, PrivateKey: otherKey.Bytes(), SendAsRetry: true}
+	other2Key := echKeyFromSeed(ks ^ 0x123457)
+	other2Cfg := mkECHConfig(0xfe0d, cid+9, 0x0020, other2Key.PublicKey().Bytes(), [][2]int{{1, 3}, {1, 1}}, 12, "retry2-"+pub, nil)
+	other2 := tls.EncryptedClientHelloKey{Config: other2Cfg, PrivateKey: other2Key.Bytes(), SendAsRetry: true}
 	mine := tls.EncryptedClientHelloKey{Config: es.cliCfg, PrivateKey: es.cliKey.Bytes(), SendAsRetry: true}
 	sc := &tls.Config{}
 	switch srv {
@@ -242,6 +265,8 @@ func mkEchSetup(srv string, cid uint8, suites [][2]int, mnl uint8, pub, sn strin
 		es.hrr = true
 	case "rejkey":
 		es.srvKeys = []tls.EncryptedClientHelloKey{other}
+	case "rejretry2": // two retry configs: the client will pick the first, which is followed by another
+		es.srvKeys = []tls.EncryptedClientHelloKey{other, other2}
 	case "rejhrr":
 		es.srvKeys = []tls.EncryptedClientHelloKey{other}
 		es.hrr = true
@@ -293,7 +318,11 @@ func execEchHS(in KV) string {
 		return "out=bad-id"
 	}
 	pub, sn := in["pub"], in["sn"]
-	es := mkEchSetup(in["srv"], uint8(in.Int("cid")), parseSuites(in["suites"]), uint8(in.Int("mnl")), pub, sn, in["junk"] == "1", in.U64("ks"))
+	layout := in["cl"]
+	if layout == "" {
+		layout = "P"
+	}
+	es := mkEchSetup(in["srv"], uint8(in.Int("cid")), parseSuites(in["suites"]), uint8(in.Int("mnl")), pub, sn, layout, in.U64("ks"))
 	cc := &tls.Config{ServerName: sn, EncryptedClientHelloConfigList: es.cliList}
 	if in["alpn"] == "1" {
 		cc.NextProtos = []string{"h2", "http/1.1"}
@@ -307,11 +336,12 @@ func execEchHS(in KV) string {
 		return nil, nil
 	}
 	res := runHS(HSOpts{ID: id, ClientCfg: cc, ServerCfg: es.serverCfg, AppData: []byte("ech-ping")})
-	if res.PrepareErr != nil {
-		return "out=prepare-failed msg=" + sanitize(res.PrepareErr.Error())
-	}
 	cls, retry := clientResult(res.ClientErr)
 	hellos := clientHellos(res.ClientWire)
+	if res.PrepareErr != nil || len(hellos) == 0 {
+		// no ClientHello at all: the model decides from the list whether that is acceptable
+		return fmt.Sprintf("out=no-hello c=%s prep=%s clist=%s", cls, errTok(res.PrepareErr), hx(es.cliList))
+	}
 	var sb strings.Builder
 	fmt.Fprintf(&sb, "out=ok c=%s s=%s cech=%s sech=%s csn=%s ssn=%s chrr=%d retry=%s srvretry=%s echo=%s nch=%d",
 		cls, errClass(res.ServerErr), b2i(res.ClientState.ECHAccepted), b2i(res.ServerState.ECHAccepted),
@@ -319,6 +349,25 @@ func execEchHS(in KV) string {
 	mu.Lock()
 	fmt.Fprintf(&sb, " seen=%s", joinList(mapStr(sawSNI, nameTok)))
 	mu.Unlock()
+	// the client's config list and the server's keys, verbatim (inputs of the model's selection / HPKE-info logic)
+	var sk []string
+	for _, k := range es.srvKeys {
+		sk = append(sk, hx(k.Config)+":"+b2i(k.SendAsRetry))
+	}
+	fmt.Fprintf(&sb, " clist=%s skeys=%s", hx(es.cliList), joinList(sk))
+	// a rejected client retries with the list it was handed: that server must now accept
+	if cls == "echrej" && len(retry) > 0 {
+		c2 := &tls.Config{ServerName: sn, EncryptedClientHelloConfigList: retry, NextProtos: cc.NextProtos}
+		r2 := runHS(HSOpts{ID: id, ClientCfg: c2, ServerCfg: es.serverCfg, AppData: []byte("ech-retry")})
+		c2cls, _ := clientResult(r2.ClientErr)
+		if r2.PrepareErr != nil {
+			c2cls = "prepare:" + sanitize(r2.PrepareErr.Error())
+		}
+		fmt.Fprintf(&sb, " c2=%s cech2=%s sech2=%s csn2=%s ssn2=%s", c2cls, b2i(r2.ClientState.ECHAccepted), b2i(r2.ServerState.ECHAccepted),
+			nameTok(r2.ClientState.ServerName), nameTok(r2.ServerState.ServerName))
+	} else {
+		sb.WriteString(" c2=-")
+	}
 	// the secret name anywhere in what the client put on the wire (ciphertext included)
 	fmt.Fprintf(&sb, " leak=%s", b2i(bytes.Contains(res.ClientWire, []byte(sn))))
 	encs, oerr := tls.VerifECHOpen(es.cliCfg, es.cliKey.Bytes(), hellos)
